@@ -107,6 +107,7 @@ func VerifC13RaceMux() {
 	_ = ln1.Close()
 	zzverif.Quiesce()
 	zzverif.Assert(bDone, "C13.racemux.join-terminates")
+	zzverif.Assert(err2 == nil, "C13.racemux.valid-join-succeeds-even-while-last-member-leaves")
 	if err2 == nil {
 		zzverif.Reach("C13.racemux.joined")
 		g, ok := ctl.groups["g"]
